@@ -44,6 +44,11 @@ Proof. exact conversions_f32. Qed.
 Theorem C02_conversions_i32 : conv_ok Gen_C02_i32.catalogue "i32" I32 = true.
 Proof. exact conversions_i32. Qed.
 (* row()/column() get and set, every valid index *)
+(* gtx helpers named in the anchors: diagonalCxR, rowMajorN / colMajorN from vectors and from a matrix *)
+Theorem C02_gtx_diagonal_and_major_storage_f32 : gtx_ok Gen_C02_f32.catalogue "f32" F32 = true.
+Proof. exact gtx_f32. Qed.
+Theorem C02_gtx_diagonal_and_major_storage_i32 : gtx_ok Gen_C02_i32.catalogue "i32" I32 = true.
+Proof. exact gtx_i32. Qed.
 Theorem C02_access_f32 : access_ok Gen_C02_f32.catalogue "f32" F32 = true.
 Proof. exact access_f32. Qed.
 Theorem C02_access_i32 : access_ok Gen_C02_i32.catalogue "i32" I32 = true.
